@@ -7,7 +7,7 @@
    Part 3: the scanner's and the checker's loops over item sequences.
    Part 4: the printer's loop emits such a sequence; expansion. *)
 From Coq Require Import List ZArith Bool Lia.
-From RtoscV Require Import Pretty.Tok Pretty.FloatFmt Pretty.PrintModel Pretty.ScanModel
+From RtoscV Require Import Pretty.Tok Pretty.FloatFmt Pretty.PrintModel Pretty.ScanModel Pretty.FloatProofs
   Pretty.PrettyProofs Pretty.RangeProofs Pretty.RunProofs.
 Import ListNotations.
 Local Open Scope Z_scope.
@@ -255,15 +255,21 @@ Fixpoint lastns (u : list Z) (c0 : Z) : Z :=
   match u with [] => c0 | c :: r => lastns r (if isspace c then c0 else c) end.
 
 Lemma find_ell_skip u E : forall c0,
-  Forall (fun c => c <> 46) u -> lastns u c0 <> 40 ->
+  sdots u -> lastns u c0 <> 40 ->
   find_ellipsis (u ++ [46; 46; 46] ++ E) c0 = Some ([46; 46; 46] ++ E).
 Proof.
-  induction u as [|c u IH]; intros c0 Hu Hl.
+  intros c0 Hu. revert c0. induction Hu as [|c u Hc Hu IH|c u Hc Hu IH]; intros c0 Hl.
   - cbn [app lastns] in *. cbn [find_ellipsis]. replace (c0 =? 40) with false by lia. reflexivity.
-  - inversion Hu as [|? ? Hc Hu']; subst. cbn [app find_ellipsis lastns] in *.
+  - cbn [app find_ellipsis lastns] in *.
     assert (Hsw : forall t, starts_with ellipsis (c :: t) = false).
     { intros t. unfold starts_with, ellipsis. cbn [strip_prefix]. now replace (c =? 46) with false by lia. }
-    rewrite Hsw. cbn [andb]. apply (IH _ Hu' Hl).
+    rewrite Hsw. cbn [andb]. apply (IH _ Hl).
+  - change ((46 :: c :: u) ++ [46; 46; 46] ++ E) with (46 :: (c :: u) ++ [46; 46; 46] ++ E).
+    cbn [find_ellipsis].
+    assert (Hsw : starts_with ellipsis (46 :: (c :: u) ++ [46; 46; 46] ++ E) = false).
+    { unfold starts_with, ellipsis. cbn [strip_prefix app]. rewrite Z.eqb_refl. now replace (c =? 46) with false by lia. }
+    rewrite Hsw. cbn [andb]. change (isspace 46) with false. cbv iota.
+    apply IH. cbn [lastns] in Hl. exact Hl.
 Qed.
 
 Lemma lastns_app u v c0 : lastns (u ++ v) c0 = lastns v (lastns u c0).
@@ -353,8 +359,8 @@ Variables dec2f dec2d : list Z -> Z.
 
 Definition item_ok (p : option av) (it : item) : Prop :=
   match it with
-  | IVal v t => tokof dec2f dec2d v t /\ nodot t
-  | IRep n v t => 1 <= n < 2 ^ 31 /\ tokof dec2f dec2d v t /\ nodot t
+  | IVal v t => tokof dec2f dec2d v t /\ sdots t
+  | IRep n v t => 1 <= n < 2 ^ 31 /\ tokof dec2f dec2d v t /\ sdots t
   | ITail k b d m last sp => run_ok k b d m last /\ (sp = [32] \/ sp = nl4) /\ ctx_ok p k b d m
   end.
 
@@ -609,7 +615,7 @@ Proof.
         with (t ++ sepp ++ tail_text k b last sp ++ rest)
         by (rewrite ET0, Etb, <- !app_assoc; reflexivity).
       now rewrite (not_range_mult_reads pv t _ Htk Hro).
-    + repeat (apply Forall_app; split); assumption.
+    + apply sdots_app; [exact Hnt|]. apply nodot_sdots. repeat (apply Forall_app; split); assumption.
     + rewrite !app_assoc. rewrite <- (app_assoc _ [cb] [32]). rewrite lastns_end; [assumption|assumption|repeat constructor].
   - (* a repetition *)
     destruct Hpok as (Hn & Htk & Hnt). subst v.
@@ -625,7 +631,8 @@ Proof.
         with (dec_nat n ++ 120 :: t ++ sepp ++ tail_text k b last sp ++ rest)
         by (rewrite ET0, Etb, <- !app_assoc; reflexivity).
       now rewrite Hm1, Hax.
-    + repeat (apply Forall_app; split); assumption.
+    + apply sdots_app; [apply nodot_sdots; apply Forall_app; split; assumption|].
+      apply sdots_app; [exact Hnt|]. apply nodot_sdots. repeat (apply Forall_app; split); assumption.
     + rewrite !app_assoc. rewrite <- (app_assoc _ [cb] [32]). rewrite lastns_end; [assumption|assumption|repeat constructor].
   - (* a range tail: the neighbour is its last value *)
     destruct Hpok as ((Hsb' & Hsl' & _) & Hsp' & _). subst pv.
@@ -643,7 +650,7 @@ Proof.
       rewrite Hlt. cbn [app skipn]. f_equal.
       destruct (tok_k_first dec2f dec2d k' last' (small_good _ _ Hsl')) as (c3 & r3 & E3 & Hc3).
       apply skip_ws_sep; [now apply sp_ws|]. rewrite E3. cbn [app]. rewrite hd0_cons. apply Hc3.
-    + rewrite Et2 in Hnd'. apply Forall_app. split; [now apply Forall_app in Hnd' as [Hnd' _]|].
+    + apply nodot_sdots. rewrite Et2 in Hnd'. apply Forall_app. split; [now apply Forall_app in Hnd' as [Hnd' _]|].
       apply Forall_app. split; [now apply Forall_app in Hnd' as [_ Hnd']|repeat constructor; lia].
     + rewrite lastns_end; [assumption|assumption|repeat constructor].
 Qed.
@@ -880,7 +887,7 @@ End Expand.
 
 (* ------------------------------------------------------------------------- *)
 (* Part 4: the printer                                                        *)
-Definition goodc (v : av) : Prop :=
+Definition goodc0 (v : av) : Prop :=
   match v with
   | VI i => small_k KI i | VH h => small_k KH h | VC c => small_k KC c
   | VT | VF | VN | VInf => True
@@ -891,12 +898,43 @@ Definition goodc (v : av) : Prop :=
   | _ => False
   end.
 
-Lemma goodc_good v : goodc v -> good_val v.
+(* floats and doubles: finite, and not the negative zero (a run of zeroes of
+   both signs is compressed to one of them: finding signed-zero-run) *)
+Definition goodfl (v : av) : Prop :=
+  match v with
+  | VFl b => 0 <= b < 2 ^ 32 /\ f32_finite b = true /\ b <> 2 ^ 31
+  | VD b => 0 <= b < 2 ^ 64 /\ f64_finite b = true /\ b <> 2 ^ 63
+  | _ => False
+  end.
+
+(* the values of the list-level theorems; floats and doubles only with the
+   lossless option (the hexadecimal value in parentheses) *)
+Definition goodc (o : popts) (v : av) : Prop :=
+  goodc0 v \/ (lossless o = true /\ goodfl v).
+
+Lemma goodc0_good v : goodc0 v -> good_val v.
 Proof. destruct v; cbn; unfold small_k, good_k, good_char; try tauto; lia. Qed.
-Lemma goodc_facts v : goodc v -> scalar v /\ inrv v /\ exact v.
-Proof. destruct v; cbn; unfold small_k, good_k; try tauto; lia. Qed.
-Lemma goodc_mk k z : goodc (mk k z) -> small_k k z.
-Proof. destruct k; cbn; tauto. Qed.
+
+Lemma finite_notnan32 b : f32_finite b = true -> fl_isnan 23 8 b = false.
+Proof.
+  unfold f32_finite, fl_isnan. change (2 ^ 8 - 1) with 255. intros H. apply negb_true_iff in H. now rewrite H.
+Qed.
+Lemma finite_notnan64 b : f64_finite b = true -> fl_isnan 52 11 b = false.
+Proof.
+  unfold f64_finite, fl_isnan. change (2 ^ 11 - 1) with 2047. intros H. apply negb_true_iff in H. now rewrite H.
+Qed.
+
+Lemma goodc_facts o v : goodc o v -> scalar v /\ inrv v /\ exact v.
+Proof.
+  intros [H|[_ H]].
+  - destruct v; cbn in *; unfold small_k, good_k in *; try tauto; lia.
+  - destruct v; cbn [goodfl] in H; try contradiction; cbn [scalar inrv exact]; unfold flgood;
+      destruct H as (Hb & Hf & Hz).
+    + split; [exact I|]. split; [|exact I]. split; [exact Hb|]. split; [now apply finite_notnan32|exact Hz].
+    + split; [exact I|]. split; [|exact I]. split; [exact Hb|]. split; [now apply finite_notnan64|exact Hz].
+Qed.
+Lemma goodc_mk o k z : goodc o (mk k z) -> small_k k z.
+Proof. intros [H|[_ H]]; destruct k; cbn in H; tauto. Qed.
 
 Lemma pav_mk o k z cols f :
   print_arg_val_f (S f) o [mk k z] cols None = Some (tok_k k z, len (tok_k k z), cols + len (tok_k k z), false).
@@ -1024,13 +1062,13 @@ Qed.
 Section GoodcTok.
 Variables dec2f dec2d : list Z -> Z.
 
-Lemma goodc_tok o v cols t w c :
-  goodc v -> print_scalar o v cols = Some (t, w, c) ->
+Lemma goodc0_tok o v cols t w c :
+  goodc0 v -> print_scalar o v cols = Some (t, w, c) ->
   tokof dec2f dec2d v t /\ nodot t /\ w = len t.
 Proof.
-  intros Hg Hp. destruct (scalar_tok dec2f dec2d o v cols t w c (goodc_good v Hg) Hp) as [Htk Hw].
+  intros Hg Hp. destruct (scalar_tok dec2f dec2d o v cols t w c (goodc0_good v Hg) Hp) as [Htk Hw].
   split; [exact Htk|]. split; [|exact Hw].
-  destruct v; cbn [goodc] in Hg; try contradiction; cbn in Hp.
+  destruct v; cbn [goodc0] in Hg; try contradiction; cbn in Hp.
   - inversion Hp; subst. exact (proj1 (tok_k_chars KI i Hg)).
   - inversion Hp; subst. exact (proj1 (tok_k_chars KH h Hg)).
   - inversion Hp; subst. exact (proj1 (tok_k_chars KC c0 Hg)).
@@ -1048,6 +1086,24 @@ Proof.
     constructor; [lia|]. apply Forall_app. split; [assumption|repeat constructor; lia].
   - inversion Hp; subst. repeat constructor; try lia; apply hexdig_ne46.
   - inversion Hp; subst. repeat constructor; try lia; apply hexdig_ne46.
+Qed.
+
+Lemma goodc_tok o v cols t w c :
+  goodc o v -> print_scalar o v cols = Some (t, w, c) ->
+  tokof dec2f dec2d v t /\ sdots t /\ w = len t.
+Proof.
+  intros [Hg|[Hl Hg]] Hp.
+  - destruct (goodc0_tok o v cols t w c Hg Hp) as (A & B & C). split; [exact A|]. split; [now apply nodot_sdots|exact C].
+  - destruct v; cbn [goodfl] in Hg; try contradiction; destruct Hg as (Hb & Hf & _);
+      cbn [print_scalar] in Hp; rewrite Hl in Hp; inversion Hp; subst; clear Hp.
+    + split; [|split; [apply (flt_text_sdots (prec o) (f32_to_f64 bits))|reflexivity]].
+      split; [apply tok_core_reads; now apply tok_float|]. split; [|exact I].
+      destruct (flt_text_first (prec o) (f32_to_f64 bits) []) as (c0 & tl & E & Hc).
+      rewrite app_nil_r in E. unfold flt_text in E. eauto.
+    + split; [|split; [apply (dbl_text_sdots (prec o) bits)|reflexivity]].
+      split; [apply tok_core_reads; now apply tok_double|]. split; [|exact I].
+      destruct (dbl_text_first (prec o) bits []) as (c0 & tl & E & Hc).
+      rewrite app_nil_r in E. unfold dbl_text in E. eauto.
 Qed.
 End GoodcTok.
 
@@ -1093,7 +1149,7 @@ Proof.
 Qed.
 
 Lemma print_iter a0 rest size prev t tmp cols cols1 bb cv :
-  Forall goodc (a0 :: rest) -> Z.of_nat (length (a0 :: rest)) < 2 ^ 31 ->
+  Forall (goodc o) (a0 :: rest) -> Z.of_nat (length (a0 :: rest)) < 2 ^ 31 ->
   (forall p, prev = Some p -> scalar p) ->
   convert_to_range o (a0 :: rest) size = cv -> cv <> CUnmod ->
   print_arg_val o (match cv with CYes c _ => c | _ => a0 :: rest end) cols prev = Some (t, tmp, cols1, bb) ->
@@ -1105,9 +1161,9 @@ Lemma print_iter a0 rest size prev t tmp cols cols1 bb cv :
     nth_error (a0 :: rest) (inc - 1) = ilast its.
 Proof.
   intros Hg Hlen Hprev Hcv Hnu Hp.
-  pose proof (Forall_inv Hg) as Hg0. destruct (goodc_facts a0 Hg0) as (Hs0 & _ & Hex0).
-  assert (Hsc : Forall scalar (a0 :: rest)) by (eapply Forall_impl; [|exact Hg]; intros a Ha; apply (goodc_facts a Ha)).
-  assert (Hin : Forall inrv (a0 :: rest)) by (eapply Forall_impl; [|exact Hg]; intros a Ha; apply (goodc_facts a Ha)).
+  pose proof (Forall_inv Hg) as Hg0. destruct (goodc_facts o a0 Hg0) as (Hs0 & _ & Hex0).
+  assert (Hsc : Forall scalar (a0 :: rest)) by (eapply Forall_impl; [|exact Hg]; intros a Ha; apply (goodc_facts o a Ha)).
+  assert (Hin : Forall inrv (a0 :: rest)) by (eapply Forall_impl; [|exact Hg]; intros a Ha; apply (goodc_facts o a Ha)).
   destruct cv as [|c kk|]; [| |congruence].
   - (* no conversion: one value *)
     unfold print_arg_val in Hp. rewrite (pav_scalar o a0 rest cols prev 5 Hs0) in Hp.
@@ -1134,11 +1190,11 @@ Proof.
         induction m as [|m IH]; [reflexivity|exact IH].
     + (* a run with a step *)
       subst a0. rewrite expand_delta in Hexp by lia. rewrite Nat2Z.id in Hexp. inversion Hexp as [Hm]. clear Hexp.
-      assert (Hsx : small_k k x) by (apply goodc_mk; exact Hg0).
+      assert (Hsx : small_k k x) by (apply (goodc_mk o); exact Hg0).
       assert (Hex : forall j, (j < n)%nat -> wr k (x + Z.of_nat j * d) = x + Z.of_nat j * d)
         by (intros j Hj; apply wr_id; apply (Hexj j Hj)).
       assert (Hsm : forall j, (j < n)%nat -> small_k k (wr k (x + Z.of_nat j * d))).
-      { intros j Hj. rewrite Hex by assumption. apply goodc_mk. eapply Forall_forall; [exact Hg|].
+      { intros j Hj. rewrite Hex by assumption. apply (goodc_mk o). eapply Forall_forall; [exact Hg|].
         eapply nth_error_In. exact (proj1 (Hexj j Hj)). }
       set (last := x + (Z.of_nat n - 1) * d).
       assert (Hlast : wr k (x + (Z.of_nat n - 1) * d) = last).
@@ -1182,7 +1238,7 @@ Proof.
         cbn [iter_text item_text item_ok item_last]. split; [reflexivity|].
         assert (Hsxd : small_k k (x + d)).
         { specialize (Hsm 1%nat ltac:(lia)). rewrite Hex in Hsm by lia. now replace (x + Z.of_nat 1 * d) with (x + d) in Hsm by lia. }
-        split; [split; [apply tok_k_tokof; now apply small_good|exact (proj1 (tok_k_chars k x Hsx))]|].
+        split; [split; [apply tok_k_tokof; now apply small_good|exact (nodot_sdots _ (proj1 (tok_k_chars k x Hsx)))]|].
         split; [|split; [exact Hsp|]].
         { unfold run_ok. split; [exact Hsxd|]. split; [exact Hslast|]. split; [unfold last; lia|]. split; [lia|].
           split; [exact Hd0|]. split; [exact Hdr|].
@@ -1220,7 +1276,7 @@ Proof.
 Qed.
 
 Lemma print_loop_iseq : forall fuel args prev i n acc pend wrt cols awtl text w,
-  Forall goodc args -> Z.of_nat (length args) < 2 ^ 31 -> n = i + Z.of_nat (length args) ->
+  Forall (goodc o) args -> Z.of_nat (length args) < 2 ^ 31 -> n = i + Z.of_nat (length args) ->
   (args = [] -> pend = false) -> (forall p, prev = Some p -> scalar p) ->
   print_vals_loop fuel o args prev i n acc pend wrt cols awtl = Some (text, w) ->
   exists its sfx, text = acc ++ sfx /\ w = wrt + len sfx - (if pend then 1 else 0) /\
@@ -1235,7 +1291,7 @@ Proof.
   - cbn [length] in Hn. replace (n <=? i) with false in Hrun by lia.
     destruct (convert_to_range o (a0 :: rest) (n - i)) as [|c kk|] eqn:Ecv; [| |discriminate].
     1: rewrite top_plain in Hrun
-         by (pose proof (Forall_inv Hg) as Hg0; destruct a0; cbn in Hg0; try contradiction; cbn; lia).
+         by (destruct (goodc_facts o a0 (Forall_inv Hg)) as (Hs0 & _); destruct a0; cbn in Hs0; try contradiction; cbn; lia).
     2: destruct (conv_yes_head _ _ _ _ Ecv) as (n0 & h0 & r0 & Ec0); rewrite Ec0 in Hrun;
        rewrite top_plain in Hrun by (cbn; lia); rewrite <- Ec0 in Hrun.
     all: match type of Hrun with context [print_arg_val ?oo ?inp ?cc ?pp] =>
@@ -1265,7 +1321,7 @@ Proof.
     all: destruct Hil as (lst & Eil & pp & Hokl).
     all: assert (Hprev2 : forall p, ilast its1 = Some p -> scalar p)
            by (intros p Ep; rewrite Eil in Ep; inversion Ep; subst; exact (item_scalar_last _ _ _ _ Hokl)).
-    all: assert (Hg2 : Forall goodc (skipn inc (a0 :: rest)))
+    all: assert (Hg2 : Forall (goodc o) (skipn inc (a0 :: rest)))
            by (rewrite <- (firstn_skipn inc (a0 :: rest)) in Hg; now apply Forall_app in Hg as [_ Hg]).
     all: destruct (i + Z.of_nat inc <? n) eqn:Ein;
          (apply IH in Hrun; [|exact Hg2|rewrite Hl2; cbn [length] in *; lia|rewrite Hl2; cbn [length] in *; lia
@@ -1311,7 +1367,7 @@ Qed.
 
 (* the round trip with range compression on: the scanned slots expand to the values *)
 Theorem roundtrip_compressed o vs text w :
-  compress o = true -> Forall goodc vs -> Z.of_nat (length vs) < 2 ^ 31 ->
+  compress o = true -> Forall (goodc o) vs -> Z.of_nat (length vs) < 2 ^ 31 ->
   print_arg_vals o vs 0 = Some (text, w) ->
   exists slots,
     w = len text /\
@@ -1340,7 +1396,7 @@ Qed.
 
 (* for every option record - compression on or off *)
 Theorem roundtrip_any (dec2f dec2d : list Z -> Z) o vs text w :
-  Forall goodc vs -> Z.of_nat (length vs) < 2 ^ 31 ->
+  Forall (goodc o) vs -> Z.of_nat (length vs) < 2 ^ 31 ->
   print_arg_vals o vs 0 = Some (text, w) ->
   exists slots,
     w = len text /\
@@ -1350,19 +1406,38 @@ Theorem roundtrip_any (dec2f dec2d : list Z -> Z) o vs text w :
 Proof.
   intros Hg Hlen Hp. destruct (compress o) eqn:Ec.
   - exact (roundtrip_compressed dec2f dec2d o vs text w Ec Hg Hlen Hp).
-  - assert (Hgv : Forall good_val vs) by (eapply Forall_impl; [|exact Hg]; apply goodc_good).
-    destruct (roundtrip_scalars dec2f dec2d o vs text w Ec Hgv Hp) as (Hw & Hc & Hs).
-    exists vs. repeat split; try assumption. apply expand_scalars.
-    eapply Forall_impl; [|exact Hg]. intros a Ha. apply (goodc_facts a Ha).
+  - assert (Htok : forall v cols t w c, goodc o v -> print_scalar o v cols = Some (t, w, c) ->
+                     tokof dec2f dec2d v t /\ w = len t).
+    { intros v cols t w0 c Hv Hps. destruct (goodc_tok dec2f dec2d o v cols t w0 c Hv Hps) as (A & _ & B). now split. }
+    destruct (print_arg_vals_lang dec2f dec2d o (goodc o) Htok (fun v Hv => proj1 (goodc_facts o v Hv)) Ec vs text w Hg Hp)
+      as [HL Hw].
+    exists vs. split; [exact Hw|]. split; [now apply count_lang|]. split; [now apply scan_lang|]. apply expand_scalars.
+    eapply Forall_impl; [|exact Hg]. intros a Ha. apply (goodc_facts o a Ha).
 Qed.
 
-Lemma roundtrip_any_example :
-  Forall goodc ([VT; VT; VT; VT; VT; VI 7] ++ map VI [1; 2; 3; 4; 5; 6] ++ map VH [10; 20; 30; 40; 50]) /\
+Lemma roundtrip_any_example : forall o,
+  Forall (goodc o) ([VT; VT; VT; VT; VT; VI 7] ++ map VI [1; 2; 3; 4; 5; 6] ++ map VH [10; 20; 30; 40; 50]) /\
   exists text w, print_arg_vals {| lossless := true; prec := 2; linelength := 20; compress := true |}
     ([VT; VT; VT; VT; VT; VI 7] ++ map VI [1; 2; 3; 4; 5; 6] ++ map VH [10; 20; 30; 40; 50]) 0 = Some (text, w).
 Proof.
+  intros o. split.
+  - cbn [app map]. repeat (constructor; [left; cbn; unfold small_k, good_k; try exact I; lia|]). constructor.
+  - eexists _, _. vm_compute. reflexivity.
+Qed.
+
+(* floats in a list: a constant run, a double, a subnormal *)
+Definition ex_fl_opts : popts := {| lossless := true; prec := 2; linelength := 30; compress := true |}.
+Definition ex_fl_list : list av :=
+  repeat (VFl 1069547520) 6 ++ [VD 4591870180066957722; VFl 1; VI 3].
+Lemma float_list_example :
+  Forall (goodc ex_fl_opts) ex_fl_list /\
+  exists text w, print_arg_vals ex_fl_opts ex_fl_list 0 = Some (text, w).
+Proof.
   split.
-  - cbn [app map]. repeat constructor; cbn; lia.
+  - unfold ex_fl_list. cbn [repeat app].
+    repeat (constructor; [first [left; cbn; unfold small_k, good_k; lia
+                                |right; split; [reflexivity|]; cbn [goodfl]; split; [lia|]; split; [reflexivity|lia]]|]).
+    constructor.
   - eexists _, _. vm_compute. reflexivity.
 Qed.
 
@@ -1372,7 +1447,7 @@ Section MsgAny.
 Variables dec2f dec2d : list Z -> Z.
 
 Theorem message_roundtrip_compressed o addr vs text w :
-  compress o = true -> good_addr addr -> Forall goodc vs -> Z.of_nat (length vs) < 2 ^ 31 ->
+  compress o = true -> good_addr addr -> Forall (goodc o) vs -> Z.of_nat (length vs) < 2 ^ 31 ->
   print_message o addr vs 0 = Some (text, w) ->
   exists slots,
     w = len text /\
@@ -1426,7 +1501,7 @@ Proof.
 Qed.
 
 Theorem message_roundtrip_any o addr vs text w :
-  good_addr addr -> Forall goodc vs -> Z.of_nat (length vs) < 2 ^ 31 ->
+  good_addr addr -> Forall (goodc o) vs -> Z.of_nat (length vs) < 2 ^ 31 ->
   print_message o addr vs 0 = Some (text, w) ->
   exists slots,
     w = len text /\
@@ -1436,9 +1511,12 @@ Theorem message_roundtrip_any o addr vs text w :
 Proof.
   intros Ha Hg Hlen Hp. destruct (compress o) eqn:Ec.
   - exact (message_roundtrip_compressed o addr vs text w Ec Ha Hg Hlen Hp).
-  - assert (Hgv : Forall good_val vs) by (eapply Forall_impl; [|exact Hg]; apply goodc_good).
-    destruct (message_roundtrip dec2f dec2d o addr vs text w Ec Ha Hgv Hp) as (Hw & Hc & Hs).
+  - assert (Htok : forall v cols t w c, goodc o v -> print_scalar o v cols = Some (t, w, c) ->
+                     tokof dec2f dec2d v t /\ w = len t).
+    { intros v cols t w0 c Hv Hps. destruct (goodc_tok dec2f dec2d o v cols t w0 c Hv Hps) as (A & _ & B). now split. }
+    destruct (message_roundtrip_gen dec2f dec2d o (goodc o) Htok (fun v Hv => proj1 (goodc_facts o v Hv))
+                addr vs text w Ec Ha Hg Hp) as (Hw & Hc & Hs).
     exists vs. repeat split; try assumption. apply expand_scalars.
-    eapply Forall_impl; [|exact Hg]. intros a Hx. apply (goodc_facts a Hx).
+    eapply Forall_impl; [|exact Hg]. intros a Hx. apply (goodc_facts o a Hx).
 Qed.
 End MsgAny.
